@@ -254,6 +254,15 @@ def reshape_program(rng, tid, sym, kind, dtype="float64"):
                       "entry": rng.choice(["method", "symmray", "autoray"])})
         steps.append({"op": "reshape", "in": [f"r{n}"], "out": [f"b{n}"], "args": {"newshape": shape, "back": True}})
         steps.append(rel("blocks" if kind == "abelian" else "same", "C07.roundtrip", "x", f"b{n}"))
+    # targets that only INSERT unit axes (also after a fuse, so that the same call unfuses and expands)
+    if 1 not in shape:
+        t = list(shape)
+        for _ in range(rng.randint(1, 2)):
+            t.insert(rng.randint(0, len(t)), 1)
+        steps.append({"op": "reshape", "in": ["x"], "out": ["xe"], "args": {"newshape": t, "back": True}})
+        steps.append({"op": "reshape", "in": ["xe"], "out": ["xeb"], "args": {"newshape": shape, "back": True}})
+        # (dropping the unit axes again goes through a fuse: the axis comes back as a fused index, same tensor)
+        steps.append(rel("same", "C07.roundtrip.expand", "x", "xeb"))
     # an already fused axis among the inputs
     if rank >= 2 and rng.random() < 0.5:
         g = sorted(rng.sample(range(rank), 2))
